@@ -9,6 +9,7 @@ import (
 	"net/http"
 	"sort"
 	"strings"
+	"sync"
 	"testing"
 
 	ocispec "github.com/opencontainers/image-spec/specs-go/v1"
@@ -46,6 +47,9 @@ type SeekStep struct {
 	Off    int64 `json:"off,omitempty"`
 	Whence int   `json:"whence,omitempty"`
 	IsSeek bool  `json:"isSeek,omitempty"`
+	// Fault: the range request this Seek issues (if any) is answered with an error status (400, which no retry layer repeats); the
+	// script then repeats the same Seek (a caller's retry)
+	Fault bool `json:"fault,omitempty"`
 }
 
 // Case is a generated history.
@@ -135,7 +139,7 @@ func genCase(t *rapid.T) Case {
 			k := rapid.IntRange(1, 8).Draw(t, "nSeek")
 			for j := 0; j < k; j++ {
 				if rapid.Bool().Draw(t, "isSeek") {
-					op.Seek = append(op.Seek, SeekStep{IsSeek: true, Off: int64(rapid.IntRange(-3, 80).Draw(t, "off")), Whence: rapid.IntRange(0, 2).Draw(t, "whence")})
+					op.Seek = append(op.Seek, SeekStep{IsSeek: true, Off: int64(rapid.IntRange(-3, 80).Draw(t, "off")), Whence: rapid.IntRange(0, 2).Draw(t, "whence"), Fault: rapid.IntRange(0, 4).Draw(t, "seekFault") == 0})
 				} else {
 					op.Seek = append(op.Seek, SeekStep{Read: rapid.IntRange(1, 40).Draw(t, "read")})
 				}
@@ -547,6 +551,73 @@ func (e *env) seekScript(ctx context.Context, n *gen.Node, steps []SeekStep, whe
 	}
 	ref := bytes.NewReader(n.Bytes)
 	for j, st := range steps {
+		if st.IsSeek && st.Fault {
+			// a transient failure of the range request, then the caller's retry
+			var mu sync.Mutex
+			armed, hit := true, false
+			e.reg.Lock()
+			e.reg.Pre = func(req *http.Request, rec *regmodel.ReqRecord) (*http.Response, error) {
+				mu.Lock()
+				defer mu.Unlock()
+				if armed && req.Header.Get("Range") != "" {
+					armed, hit = false, true
+					return regmodel.Response(req, 400, http.Header{"Content-Type": []string{"application/json"}}, []byte(`{"errors":[{"code":"UNAVAILABLE"}]}`), false, rec.BodyRead), nil
+				}
+				return nil, nil
+			}
+			e.reg.Unlock()
+			before, _ := ref.Seek(0, io.SeekCurrent)
+			want, werr := ref.Seek(st.Off, st.Whence)
+			ref.Seek(before, io.SeekStart)
+			_, e1 := rs.Seek(st.Off, st.Whence)
+			mu.Lock()
+			armed = false
+			wasHit := hit
+			mu.Unlock()
+			e.reg.Lock()
+			e.reg.Pre = nil
+			e.reg.Unlock()
+			if wasHit {
+				if e1 == nil {
+					return moved, vt.Failf("C13/seek-fault-swallowed", "%s: step %d Seek(%d,%d): the range request was answered 400 but Seek reported success", when, j, st.Off, st.Whence)
+				}
+				if werr != nil {
+					continue
+				}
+				// the retry: an absolute Seek to the same position must now succeed
+				// and the reader must really be there
+				p1, e1 := rs.Seek(want, io.SeekStart)
+				ref.Seek(want, io.SeekStart)
+				if e1 != nil || p1 != want {
+					return moved, vt.Failf("C13/seek-retry-failed", "%s: step %d retry Seek(%d, start) after a failed range request = %d, %v", when, j, want, p1, e1)
+				}
+				moved = true
+				probe := make([]byte, 5)
+				probe2 := make([]byte, 5)
+				n1, _ := io.ReadFull(rs, probe)
+				n2, _ := io.ReadFull(ref, probe2)
+				if n1 != n2 || !bytes.Equal(probe[:n1], probe2[:n2]) {
+					return moved, vt.Failf("C13/seek-read-differs", "%s: step %d after a failed Seek and its retry to offset %d the reader delivers %q, the blob has %q there", when, j, want, probe[:n1], probe2[:n2])
+				}
+				cur1, _ := rs.Seek(0, io.SeekCurrent)
+				cur2, _ := ref.Seek(0, io.SeekCurrent)
+				if cur1 != cur2 {
+					return moved, vt.Failf("C13/seek-position", "%s: step %d position after retry and read: %d, expected %d", when, j, cur1, cur2)
+				}
+				continue
+			}
+			// no range request was needed: judged like an ordinary Seek
+			p2, e2 := ref.Seek(st.Off, st.Whence)
+			if (e1 == nil) != (e2 == nil) {
+				return moved, vt.Failf("C13/seek-error-differs", "%s: step %d Seek(%d,%d): blob reader err=%v, bytes.Reader err=%v", when, j, st.Off, st.Whence, e1, e2)
+			}
+			if e1 == nil {
+				if cur, _ := rs.Seek(0, io.SeekCurrent); cur != p2 {
+					return moved, vt.Failf("C13/seek-position", "%s: step %d Seek(%d,%d): position %d, bytes.Reader gives %d", when, j, st.Off, st.Whence, cur, p2)
+				}
+			}
+			continue
+		}
 		if st.IsSeek {
 			p1, e1 := rs.Seek(st.Off, st.Whence)
 			p2, e2 := ref.Seek(st.Off, st.Whence)
